@@ -93,6 +93,32 @@ impl Check for C11 {
             let unk = rng.below(100) < unk_pct && (!e.has_global() || rng.chance(1, 2));
             chain.push((e.id, unk));
         }
+        // one chain in 150 is very deep: a master that may contain itself (through a placeholder), opened 250-300
+        // times on top of the chain built so far (counters and widths that hold "enough levels" show here)
+        if rng.chance(1, 150) {
+            let ids: Vec<u64> = chain.iter().map(|c| c.0).collect();
+            let selfnest: Vec<u64> = spec.elems.iter().filter(|e| e.ty == Ty::Master && e.has_global() && {
+                let mut c1 = ids.clone();
+                let ok1 = spec.allowed(e.id, &c1);
+                c1.push(e.id);
+                let ok2 = spec.allowed(e.id, &c1);
+                c1.push(e.id);
+                c1.push(e.id);
+                ok1 && ok2 && spec.allowed(e.id, &c1)
+            }).map(|e| e.id).collect();
+            if !selfnest.is_empty() {
+                let g = *rng.pick(&selfnest);
+                let k = *rng.pick(&[250usize, 254, 255, 256, 257, 300]);
+                let mut c2 = ids.clone();
+                for _ in 0..k {
+                    if !spec.allowed(g, &c2) {
+                        break;
+                    }
+                    c2.push(g);
+                    chain.push((g, false));
+                }
+            }
+        }
         Case { spec, chain, probe: None, pseed: rng.next() }
     }
 
